@@ -28,6 +28,7 @@ use crate::codec::family::Family;
 use crate::common::NumStdDev;
 use crate::error::Error;
 use crate::hll::estimator::HipEstimator;
+use crate::hll::estimator::check_array_fields;
 use crate::hll::get_slot;
 use crate::hll::get_value;
 use crate::hll::serialization::CUR_MODE_HLL;
@@ -228,12 +229,22 @@ impl Array6 {
         estimator.set_kxq1(kxq1);
         estimator.set_out_of_order(ooo);
 
-        Ok(Self {
+        let array = Self {
             lg_config_k,
             bytes: data.into_boxed_slice(),
             num_zeros,
             estimator,
-        })
+        };
+        let k = 1u32 << lg_config_k;
+        check_array_fields(
+            (0..k).map(|slot| array.get(slot)),
+            0,
+            num_zeros,
+            hip_accum,
+            kxq0,
+            kxq1,
+        )?;
+        Ok(array)
     }
 
     /// Serialize Array6 to bytes
